@@ -254,9 +254,11 @@ pub fn eq_pbt(ctx: &Ctx) -> Frag {
         Ok(())
     });
     let mut s = st.into_inner();
-    if res.is_err() {
+    if let Err(e) = &res {
         if let Some(v) = s.failed.take() {
             s.frag.violation(v);
+        } else {
+            s.frag.notes.push(format!("proptest aborted without a recorded violation: {}", e.to_string().chars().take(500).collect::<String>()));
         }
     }
     s.frag
@@ -502,9 +504,11 @@ pub fn pair_pbt(ctx: &Ctx) -> Frag {
         Ok(())
     });
     let mut s = st.into_inner();
-    if res.is_err() {
+    if let Err(e) = &res {
         if let Some(v) = s.failed.take() {
             s.frag.violation(v);
+        } else {
+            s.frag.notes.push(format!("proptest aborted without a recorded violation: {}", e.to_string().chars().take(500).collect::<String>()));
         }
     }
     s.frag.require(&["needle len < 2", "needle len 2..=254", "needle len 255..=256", "needle len > 256", "ranker stateful", "ranker const0"]);
